@@ -45,3 +45,8 @@ Definition construct (args : list (list Z)) (s : statetraj) : world :=
   {| priv := index_trajs s ++ [st_states s]; user := args |}.
 
 Definition observe (a : accessor) (w : world) : list (list Z) := view a (priv w).
+
+(* ---- C18: a public API call reads its arguments and allocates its results ---- *)
+(* args: indices of caller-held arrays it reads; f: the (pure) function computed *)
+Definition api_call (w : world) (args : list nat) (f : list (list Z) -> list (list Z)) : world :=
+  {| priv := priv w; user := user w ++ f (map (fun k => nth k (user w) []) args) |}.
